@@ -3,7 +3,7 @@
 import os, sys, json, subprocess, glob, shutil, re
 V = os.path.dirname(os.path.dirname(os.path.abspath(__file__)))
 logs = {}
-for f in glob.glob('/var/tmp/verify_seed_*.log'):
+for f in sorted(glob.glob('/var/tmp/verify_seed_*.log'), key=os.path.getmtime):
     for line in open(f):
         line = line.strip()
         if line.startswith('{'):
